@@ -117,6 +117,12 @@ def run(ctx, r1='C10.1', r2='C10.2', r3='C10.3'):
         ctx.ob(r3, func, inner, dom in entry_vars,
                'the repair ranges over every server of the entry (%s)' %
                dom, construct='repair loop domain')
+        # every entry and every server of it: an entry that needs no repair
+        # does not end the pass
+        K.exhaustive_loop(ctx, r3, func, outer, 'repair pass over the '
+                          'integrity map')
+        K.exhaustive_loop(ctx, r3, func, inner, 'repair of one duplicated '
+                          'instance')
         # every iteration removes from the model and deletes the record
         body = K.loop_body_nodes(inner)
 
